@@ -358,6 +358,8 @@ def _role_rules(ctx):
         if fields is not None:
             if not aggs:
                 R.violation('f', 'R5', 'signer inform_epoch_settings: EpochData built from the settings', 'epoch_data:built', 'no EpochData construction', f.loc())
+            else:
+                R.ok('f', 'R5', 'signer inform_epoch_settings: EpochData built from the settings', '%d construction site(s)' % len(aggs), f.loc())
             for g, rv, ln in aggs:
                 for name, (req, forb) in roles.items():
                     if name not in fields:
